@@ -533,7 +533,7 @@ func run(id, tier, repo, verif, only string, workers int, trace, noReplay bool, 
 				violations++
 				exit = 1
 			default:
-				fmt.Printf("SPURIOUS property=%s harness=%s %s: %s (native: %s) inputs=%s\n", id, r.Harness, r.viol.Kind, r.viol.Msg, r.result, decodeInputs(r.Inputs))
+				fmt.Printf("SPURIOUS property=%s harness=%s %s: %s (native: %s) inputs=%s\n  engine stack: %s\n", id, r.Harness, r.viol.Kind, r.viol.Msg, r.result, decodeInputs(r.Inputs), r.viol.Stack)
 				inconclusive = append(inconclusive, fmt.Sprintf("%s: counterexample did not reproduce natively (%s): %s", r.Harness, r.result, r.viol.Msg))
 			}
 		case "known":
